@@ -260,12 +260,12 @@ def poly(coef, t):
     return r
 
 
-def uniform_grid(lo, hi, h, off):
+def uniform_grid(lo, hi, h, off, signed=False):
     """Points (k + off)*h covering [lo - 2h, hi + 2h], positive only (data, not oracle)."""
     k0 = int(np.floor(lo / h)) - 2
     k1 = int(np.ceil(hi / h)) + 2
     g = (np.arange(k0, k1 + 1) + off) * h
-    return g[g > 0]
+    return g if signed else g[g > 0]
 
 
 def op_ladder(job):
@@ -279,7 +279,8 @@ def op_ladder(job):
           "coef": fvec(job["coef"]), "raised": False, "error": "", "rungs": [], "supplied": True}
     try:
         for rung in job["rungs"]:
-            qc = uniform_grid(rung["lo"], rung["hi"], rung["h"], rung["off"])
+            # (pinhole windows may reach below zero: the grid then has negative points, taken at |q| by the library)
+            qc = uniform_grid(rung["lo"], rung["hi"], rung["h"], rung["off"], signed=(cls == "pinhole" and rung["lo"] < 0))
             if cls == "pinhole":
                 res = resolution.Pinhole1D(q, np.asarray(job["sigma"], dtype="d"), q_calc=qc)
             else:
